@@ -764,9 +764,19 @@ func judgeVary(r *Run, j *Judged, c *cls) {
 	if c.H != nil && c.H != c.B {
 		if len(c.H.Header.Values("Vary")) > 0 {
 			vh = c.H.Header
-		} else if eff, _ := r.effectiveStored(c.B, e.SeqInv); len(eff.Values("Vary")) > 0 {
-			// the last 304 brought no Vary: the one in effect is what an earlier 304 of the chain left
+		} else if eff, lastLink := r.effectiveStored(c.B, e.SeqInv); len(eff.Values("Vary")) > 0 && r.chainExact(c.B, e) && r.readAgrees(e, c.B, lastLink) {
+			// the last 304 brought no Vary: the one in effect is what an earlier 304 of the chain left (claimed
+			// only where the chain is unambiguous and the entry this exchange read shows it)
 			vh = eff
+		} else {
+			// ... and where it is not, but some 304 for the resource since B carried another Vary than B's own,
+			// which Vary the served copy is under cannot be told from the history: not judged
+			for _, o := range r.OResps {
+				if o.Is304 && o.Res == c.B.Res && o.SeqResp > c.B.SeqResp && o.SeqResp < e.SeqRet && len(o.Header.Values("Vary")) > 0 &&
+					strings.Join(o.Header.Values("Vary"), ", ") != strings.Join(c.B.Header.Values("Vary"), ", ") {
+					return
+				}
+			}
 		}
 	}
 	fields, star := varyFields(vh)
